@@ -195,10 +195,7 @@ func HarnessC29PublishResolve() {
 	if cacheSize > 0 {
 		nsOpts = append(nsOpts, WithCache(cacheSize))
 		if verifrt.NondetRange("capped", 0, 1) == 1 {
-			maxTTL := time.Duration(verifrt.NondetI64("maxttl"))
-			// away from the clock granularity: off, or at least a minute
-			verifrt.Assume(maxTTL <= 0 || maxTTL >= time.Minute)
-			nsOpts = append(nsOpts, WithMaxCacheTTL(maxTTL))
+			nsOpts = append(nsOpts, WithMaxCacheTTL(zz29FewDurs[verifrt.NondetRange("maxttl", 0, len(zz29FewDurs)-1)]))
 		}
 	}
 	ns, err := NewNameSystem(rt, nsOpts...)
@@ -206,10 +203,8 @@ func HarnessC29PublishResolve() {
 		panic(err)
 	}
 
-	// the record TTL used by every publish: unknown (0) or at least a minute
-	ttl := time.Duration(verifrt.NondetI64("ttl"))
-	verifrt.Assume(ttl == 0 || ttl >= time.Minute)
-	verifrt.Assume(ttl <= 1000*time.Hour)
+	// the record TTL used by every publish: unknown (0) or a positive one of the pool
+	ttl := zz29FewDurs[verifrt.NondetRange("ttl", 0, len(zz29FewDurs)-1)]
 
 	ask := name.AsPath()
 	steps := verifrt.Param("STEPS", 3)
@@ -250,34 +245,38 @@ func HarnessC29PublishResolve() {
 	verifrt.Reach("end")
 }
 
-// HarnessC29Cache: cacheSet / cacheGet with symbolic TTL, cap and age.
+// zz29Durs is the pool TTLs, caps and ages are drawn from. Durations stay concrete because time.Time.Add divides
+// by 1e9 (64-bit division by a constant stalls the solver); the pool has every sign/order relation between
+// TTL, cap and age that the cache code distinguishes, with gaps far above the clock granularity (the native
+// clock is the real one).
+var zz29Durs = []time.Duration{-time.Hour, 0, time.Minute, 90 * time.Second, time.Hour, 100 * time.Hour}
+
+// zz29FewDurs: the sub-pool used for publish TTLs and cache caps in the Publish/Resolve histories.
+var zz29FewDurs = []time.Duration{0, time.Minute, 100 * time.Hour}
+
+// HarnessC29Cache: cacheSet / cacheGet for every TTL, cap and age of the pool.
 func HarnessC29Cache() {
 	ns := &namesys{}
 	if err := WithCache(1)(ns); err != nil {
 		panic(err)
 	}
-	capped := verifrt.NondetRange("capped", 0, 1) == 1
+	capIdx := verifrt.NondetRange("cap", -1, len(zz29Durs)-1)
+	capped := capIdx >= 0
 	var maxTTL time.Duration
 	if capped {
-		maxTTL = time.Duration(verifrt.NondetI64("maxttl"))
+		maxTTL = zz29Durs[capIdx]
 		_ = WithMaxCacheTTL(maxTTL)(ns)
 	}
-	ttl := time.Duration(verifrt.NondetI64("ttl"))
-	age := time.Duration(verifrt.NondetI64("age"))
-	verifrt.Assume(age >= 0)
-	verifrt.Assume(age <= 10000*time.Hour)
-	verifrt.Assume(ttl <= 10000*time.Hour)
-	verifrt.Assume(maxTTL <= 10000*time.Hour)
-	verifrt.Assume(ttl >= -10000*time.Hour)
-	verifrt.Assume(maxTTL >= -10000*time.Hour)
+	ttl := zz29Durs[verifrt.NondetRange("ttl", 0, len(zz29Durs)-1)]
+	age := zz29Durs[verifrt.NondetRange("age", 1, len(zz29Durs)-1)]
 	vals := zz29Paths()
 	const key = "/ipns/name"
 
 	ns.cacheSet(key, vals[0], ttl, time.Time{})
 	// the lifetime the property grants the entry
 	life := ttl
-	if capped {
-		life = zz29IteD(maxTTL < life, maxTTL, life)
+	if capped && maxTTL < life {
+		life = maxTTL
 	}
 	stored := ttl > 0
 	// let the entry age: move its end of life into the past by `age`
@@ -285,9 +284,6 @@ func HarnessC29Cache() {
 		e.cacheEOL = e.cacheEOL.Add(-age)
 		ns.cache.Add(key, e)
 	}
-	// keep away from the clock granularity (the native clock is the real one)
-	verifrt.Assume(life-age <= 0 || life-age >= time.Minute)
-	verifrt.Assume(life-age > 0 || life-age <= -time.Minute || life <= 0)
 
 	got, gotTTL, _, ok := ns.cacheGet(key)
 	verifrt.Observe("hit", ok)
@@ -303,8 +299,9 @@ func HarnessC29Cache() {
 	// a different value for the same name replaces the entry
 	ns.cacheSet(key, vals[1], time.Hour, time.Time{})
 	got, _, _, ok = ns.cacheGet(key)
-	if !capped || maxTTL >= time.Minute {
-		verifrt.Assert("C29.cache-update-replaces", ok && got.String() == vals[1].String())
+	verifrt.Assert("C29.cache-update-replaces", ok == (!capped || maxTTL > 0))
+	if ok {
+		verifrt.Assert("C29.cache-update-value", got.String() == vals[1].String())
 	}
 	ns.cacheInvalidate(key)
 	_, _, _, ok = ns.cacheGet(key)
